@@ -4,6 +4,7 @@ import (
 	"bytes"
 	"encoding/binary"
 	"errors"
+	"math"
 	"regexp"
 	"strconv"
 )
@@ -80,7 +81,9 @@ func linearQuantizerImport(re *regexp.Regexp, input string) (*BMNumber, error) {
 	if numberNum, err := strconv.ParseFloat(number, 64); err != nil {
 		return nil, errors.New("invalid number for linear quantizer")
 	} else {
-		band := int64(numberNum / bandSize)
+		// Round to the nearest band: the exporter prints band*bandSize, and
+		// (band*bandSize)/bandSize can fall just below band
+		band := int64(math.Round(numberNum / bandSize))
 		if band >= int64(bandNum) || band <= -int64(bandNum) {
 			return nil, errors.New("number out of range for linear quantizer")
 		}
